@@ -524,14 +524,17 @@ def run(ctx):
     asan_env = {'ASAN_OPTIONS': 'detect_leaks=0:abort_on_error=0', 'UBSAN_OPTIONS': 'print_stacktrace=0'}
 
     # ---- F7 probe: which remove() does the tree have? -------------------------------------------
-    rc, out, se = ctx.run_lines([hbin], F7_WITNESS % (maxbuf, 0) + '\n')
+    try:
+        rc, out, se = ctx.run_lines([hbin], F7_WITNESS % (maxbuf, 0) + '\n', timeout=30)
+    except subprocess.TimeoutExpired:
+        rc, out, se = -999, [], 'timeout'
     f7_present = bool(out) and 'Q w10=W' in out[0]
     fixed = 0 if f7_present else 1
     ctx.extra['members_db_remove_invalidates_handles'] = not f7_present
     ctx.count('model-mode:' + ('current' if f7_present else 'repaired'))
     if f7_present:
-        rc_a, out_a, se_a = ctx.run_lines([habin], (F7_WITNESS % (maxbuf, 0)).replace(' x ', ' d ') + '\n', env=asan_env)
-        rc_d, out_d, se_d = ctx.run_lines([hdbin], (F7_WITNESS % (maxbuf, 0)).replace(' x ', ' d ') + '\n')
+        rc_a, out_a, se_a = ctx.run_lines([habin], (F7_WITNESS % (maxbuf, 0)).replace(' x ', ' d ') + '\n', env=asan_env, timeout=60)
+        rc_d, out_d, se_d = ctx.run_lines([hdbin], (F7_WITNESS % (maxbuf, 0)).replace(' x ', ' d ') + '\n', timeout=60)
         san = re.search(r'(runtime error: [^\n]*|ERROR: AddressSanitizer: [^\n]*)', se_a)
         asrt = re.search(r'Assertion [^\n]*', se_d)
         ctx.violation(F7_KEY,
@@ -576,7 +579,7 @@ def run(ctx):
         lines = [h.line(maxbuf, fixed, hi, drop_x=drop_x) for h, hi in zip(hs, hintss)]
         text = '\n'.join(lines) + '\n'
         try:
-            rc, impl, se = ctx.run_lines([binary], text, env=env, timeout=(150 if quick else 1200))
+            rc, impl, se = ctx.run_lines([binary], text, env=env, timeout=(60 if quick else 1200))
         except subprocess.TimeoutExpired:
             rc, impl, se = -999, [], 'timeout: the harness hangs'
         model = None
@@ -589,7 +592,7 @@ def run(ctx):
             e = oracle(hc)
             hi = hints_of(hc, e)
             try:
-                rc, out, se = ctx.run_lines([binary], hc.line(maxbuf, fixed, hi) + '\n', env=env, timeout=10)
+                rc, out, se = ctx.run_lines([binary], hc.line(maxbuf, fixed, hi) + '\n', env=env, timeout=(20 if len(hc.ops) > 2000 else 2))
             except subprocess.TimeoutExpired:
                 return key == 'harness-crash'
             except Exception:
@@ -605,7 +608,7 @@ def run(ctx):
             culprit = None
             for h, l in zip(hs, lines):
                 try:
-                    r1, o1, s1 = ctx.run_lines([binary], l + '\n', env=env, timeout=10)
+                    r1, o1, s1 = ctx.run_lines([binary], l + '\n', env=env, timeout=(30 if len(l) > 100000 else 3))
                 except subprocess.TimeoutExpired:
                     r1, o1, s1 = -999, [], 'timeout: the harness hangs (it walks a dangling object)'
                 if r1 != 0 or not o1:
@@ -613,7 +616,7 @@ def run(ctx):
                     break
             if culprit:
                 h, l, r1, s1 = culprit
-                hm = shrink(h, fails_with(binary, 'harness-crash', env))
+                hm = shrink(h, fails_with(binary, 'harness-crash', env), budget=40)
                 e = oracle(hm)
                 lm = hm.line(maxbuf, fixed, hints_of(hm, e))
                 sig = re.search(r'(runtime error: [^\n]*|ERROR: AddressSanitizer: [^\n:]*|Assertion [^\n]*)', s1)
@@ -632,11 +635,16 @@ def run(ctx):
                 if key in seen_keys:
                     continue
                 seen_keys.add(key)
-                hm = shrink(h, fails_with(binary, key, env))
+                if len(seen_keys) > 6:
+                    continue          # enough distinct symptoms of one defect
+                hm = h if len(h.ops) > 2000 else shrink(h, fails_with(binary, key, env), budget=80)
                 em = oracle(hm)
                 him = hints_of(hm, em)
                 lm = hm.line(maxbuf, fixed, him)
-                r1, o1, s1 = ctx.run_lines([binary], lm + '\n', env=env)
+                try:
+                    r1, o1, s1 = ctx.run_lines([binary], lm + '\n', env=env, timeout=30)
+                except subprocess.TimeoutExpired:
+                    r1, o1, s1 = -999, [], 'timeout'
                 whats = [w for k, w in monitor(hm, em, o1[0] if o1 else '', him) if k == key]
                 ctx.violation(key, (whats[0] if whats else what) + '  [history: %s]' % lm[:400],
                               {'kind': 'counterexample', 'op': lm, 'impl': o1[0] if o1 else '', 'original_op': l,
@@ -662,9 +670,12 @@ def run(ctx):
     # corpus first (lines are run as they are: correspondence only)
     if corpus_lines:
         text = '\n'.join(corpus_lines) + '\n'
-        rc, impl, se = ctx.run_lines([hbin], text)
+        try:
+            rc, impl, se = ctx.run_lines([hbin], text, timeout=60)
+        except subprocess.TimeoutExpired:
+            rc, impl, se = -999, [], 'timeout'
         if ctx.exe_build_ok:
-            rcm, model, sem = ctx.run_lines([ctx.model_exe('model_c11')], text)
+            rcm, model, sem = ctx.run_lines([ctx.model_exe('model_c11')], text, timeout=300)
             dis = ctx.diff_streams('c11-corpus', corpus_lines, impl, model)
             if dis:
                 i, op, a, b2 = dis[0]
